@@ -7,7 +7,7 @@
    Property theorems only, each closed by `exact` + Print Assumptions. *)
 From Coq Require Import String.
 From Coq Require Import Reals Lra List Bool QArith Permutation.
-From PG Require Import Lib.Num Lib.Py Fit.FitLogic Fit.FitTheorems Fit.FitCovariance Fit.FitPre Gen.FitGlueGen Fit.FitGlue.
+From PG Require Import Lib.Num Lib.Py Fit.FitLogic Fit.FitTheorems Fit.FitCovariance Fit.FitPre Gen.FitGlueGen Fit.FitGlue Fit.FitBranch.
 Import ListNotations.
 Open Scope R_scope.
 
@@ -265,3 +265,22 @@ Example generated_fit_example :
   gen_fit true (fun x p => nth 0 x 0 * p) (fun _ l => l) lsq [1; 2] [3; 5] (3, 5) (1, 2) [2] []
   = Ok ([2], sqrt (((2 * 1 - 3) * (2 * 1 - 3) + ((2 * 2 - 5) * (2 * 2 - 5) + 0)) / INR 2) / (5 - 3)).
 Proof. exact gen_fit_example. Qed.
+
+(* ---- only the requested branch is used, for ANY pressure sequence: the rows fitted are decided by the MARKS alone (Fit/FitBranch.v) *)
+(* a point is fitted iff it is a row marked with the requested branch *)
+Theorem fitted_rows_are_exactly_the_marked_rows : forall des (rows : list (row RNum)) pt, In pt (select RNum des rows) <-> In (pt, des) rows.
+Proof. exact (select_in_iff RNum). Qed.
+Print Assumptions fitted_rows_are_exactly_the_marked_rows.
+(* every row belongs to exactly one branch: nothing is dropped, nothing is used twice *)
+Theorem branches_partition_the_table : forall rows : list (row RNum), (length (select RNum false rows) + length (select RNum true rows) = length rows)%nat.
+Proof. exact (select_partition RNum). Qed.
+Print Assumptions branches_partition_the_table.
+(* the branch guess (rows after the first pressure maximum are desorption) is for tables WITHOUT marks: applied a second time to the rows of one
+   branch it is not the identity - a desorption run whose pressure creeps up once (1.00 | 0.93 0.95 0.80 0.50) would lose 2 of its 4 rows *)
+Example reguessing_marks_on_one_branch_loses_rows :
+  length (select QNum true creep_table) = 4%nat /\ length (reguessed QNum true creep_table) = 2%nat.
+Proof. exact reguessing_one_branch_loses_rows. Qed.
+(* the guess on the whole table gives the marks of that table, and on a monotone branch a second guess is harmless *)
+Example guess_on_the_whole_table_and_on_a_monotone_branch :
+  map snd (marked_by_guess QNum (map fst creep_table)) = map snd creep_table /\ reguessed QNum false creep_table = select QNum false creep_table.
+Proof. exact (conj marks_guessed_for_the_whole_table_agree reguessing_a_monotone_branch_is_harmless). Qed.
